@@ -316,6 +316,7 @@ var ghostHttpWrites int
 //@ func (*Processor).HandleChargingdataInitial [C11 C12]
 //@   entry
 //@   inline-calls (*Processor).ChargingDataCreate
+//@   modifies-anything
 //@   requires c != nil && ghostHttpWrites >= 0 && ghostHttpWrites < 1<<40
 //@   ensures ghostHttpWrites == old(ghostHttpWrites)+1 && ghostHttpBody
 //@   ensures ghostHttpStatus == 201 || (ghostHttpStatus >= 400 && ghostHttpStatus < 500)
@@ -324,6 +325,7 @@ var ghostHttpWrites int
 //@ func (*Processor).HandleChargingdataUpdate [C11 C12]
 //@   entry
 //@   inline-calls (*Processor).ChargingDataUpdate
+//@   modifies-anything
 //@   requires c != nil && ghostHttpWrites >= 0 && ghostHttpWrites < 1<<40
 //@   requires [C20] factory.SpecValidated(factory.ChfConfig)
 //@   requires [C20] chf_context.GetSelf().AbmfCfg != nil && chf_context.GetSelf().RatingCfg != nil
@@ -334,6 +336,7 @@ var ghostHttpWrites int
 //@ func (*Processor).HandleChargingdataRelease [C11 C12]
 //@   entry
 //@   inline-calls (*Processor).ChargingDataRelease
+//@   modifies-anything
 //@   requires c != nil && ghostHttpWrites >= 0 && ghostHttpWrites < 1<<40
 //@   requires [C20] factory.SpecValidated(factory.ChfConfig)
 //@   requires [C20] chf_context.GetSelf().AbmfCfg != nil && chf_context.GetSelf().RatingCfg != nil
